@@ -41,6 +41,7 @@ def run_check(root, pid, tier="quick", quiet=True):
     env = dict(os.environ)
     env["VERIF_REPO"] = root
     env["VERIF_NO_EVIDENCE"] = "1"
+    env["VERIF_WORK"] = os.path.join(root, ".work")
     r = subprocess.run([sys.executable, os.path.join(VERIF, "check.py"), pid, "--tier", tier],
                        env=env, stdout=subprocess.PIPE, stderr=subprocess.STDOUT)
     return r.returncode, r.stdout.decode(errors="replace")
